@@ -130,6 +130,15 @@ def shapes(tier, seed):
             for op in ("and", "or"):
                 if tier == "thorough" or rnd.random() < 0.4:
                     add([op, l1, l2], select=[["v", "x"]], base=ONE)
+    # three-way chains over the same variable (nested else-if / and), and their negations
+    for tri in [(core[0], core[1], core[2]), (core[3], core[5], core[6]), (core[7], core[0], core[4])]:
+        for op in ("and", "or"):
+            add([op] + list(tri), select=[["v", "x"]], base=ONE)
+            add(["not", [op] + list(tri)], select=[["v", "x"]], base=ONE)
+    for tri in [(SX[0], SX[1], J[3]), (J[0], J[3], J[4])]:
+        for op in ("and", "or"):
+            add([op] + list(tri))
+            add(["not", [op] + list(tri)])
     # three variables
     B3 = dict(pools={"X": 2, "Y": 2, "W": 2}, classes={"W": "Other"}, refs={"X": "Y"}, vars={"x": "X", "y": "Y", "w": "W"})
     for c in [["and", ["cmp", "eq", ["ra", "x"], ["v", "y"]], ["cmp", "lt", ["a", "y", "a"], ["a", "w", "a"]]],
